@@ -1,4 +1,5 @@
 import SwcVerif.Props.C15
+import SwcVerif.Props.C15Gen
 #print axioms C15.convert_faithful
 #print axioms C15.rows_count
 #print axioms C15.trailing_ignored
@@ -13,3 +14,7 @@ import SwcVerif.Props.C15
 #print axioms C15.truncation_rejected
 #print axioms C15.lex_skips_blanks
 #print axioms C15.lex_structural
+#print axioms C15.generated_from_ast_eq_rows
+#print axioms C15.generated_walk_fuel
+#print axioms C15.generated_rows_ids
+#print axioms C15.generated_token_protocol_partial
